@@ -1,17 +1,16 @@
-\* liveness under weak fairness of the event loop, REPAIRED position (TaskEndNotifies = TRUE: the end of a task
-\* requests a cycle): EventuallyStarted must hold. 2 users, limit 1, three life-cycle events.
+\* teeth (defect C05-1, fixed in fbca5b4): a limit change that leads to no cycle violates EventuallyStarted.
 SPECIFICATION FairSpec
 CONSTANTS
-  UploadIds = {1, 3}
+  UploadIds = {1}
   PerUser = 2
-  MaxSlots = 2
-  InitSlots = {1}
+  MaxSlots = 1
+  InitSlots = {0}
   InitTruth = {"unknown"}
   AnyInitAttr = FALSE
   Statuses = {"unknown", "offline", "away", "online"}
-  SlotBudget = 0
+  SlotBudget = 1
   AttrBudget = 0
-  LifeBudget = 3
+  LifeBudget = 0
   TrackMgmt = TRUE
   GrantAll = FALSE
   UseUploadingUsers = TRUE
@@ -21,7 +20,7 @@ CONSTANTS
   WFriend = 5
   WPriv = 100
   StateChangeNotifies = TRUE
-  SlotsChangeNotifies = TRUE
+  SlotsChangeNotifies = FALSE
   TaskEndNotifies = TRUE
   RequeueTail = FALSE
   TrackPerUser = TRUE
